@@ -1,4 +1,5 @@
 import Verif.Lemmas.Carrier
+import Verif.Lemmas.Label
 
 /-! # C15 — client-observable behaviour does not depend on the transport carrying it
 
@@ -18,6 +19,10 @@ encoding as a parameter, and which function of the existing models is the read s
 * legacy SSE — `SseReq.runChunks` then `SseReq.run` (C12); free: events before the first message,
   LF / CRLF per event, the cutting of the stream into chunks, and where the `202` of each POST
   falls among the stream events of its exchange (the race of C12).
+
+Below the `CType` / body-text abstraction of C11 a reply has a `Content-Type` VALUE as written and
+bytes that may start with a BOM (`Verif.Model.Label`); section 5 proves that the spelling of the
+media type, its parameters (any charset) and the BOM do not reach the read stream.
 
 `W : Wire σ μ` is the text encoding (`W.enc`) and what a client must see (`W.obs`).  Each
 carrier's decoder is its model's PARAMETER; the hypothesis `…Decodes` says that it inverts `W.enc`
@@ -364,5 +369,66 @@ example :
   exact ⟨this.1, by rw [this.2.1]; simp [final, Await.classify, exCfg]⟩
 
 end helpers
+
+/-! ## 5. the declared metadata of a reply does not matter -/
+section label
+open Verif.Model.Label
+
+/-- **Media types are case-insensitive and their parameters do not pick the parser.**  A JSON media
+type in any spelling (`Application/JSON`) with any parameters (`; charset=ISO-8859-1`) is a JSON
+body; an event-stream media type in any spelling, with any parameters that do not themselves spell
+the JSON media type, is an event stream. -/
+theorem c15_media_type_spelling (m p : List Char) :
+    (lower m = jsonT → ctypeOf (some (m ++ p)) = .json) ∧
+    (lower m = sseT → contains jsonT (sseT ++ lower p) = false → ctypeOf (some (m ++ p)) = .sse) :=
+  ⟨ctypeOf_json m p, ctypeOf_sse m p⟩
+
+/-- **The label and a leading BOM do not reach the read stream.**  Each reply of a conversation is
+written under its own label (header value as written, bytes starting with a BOM or not).  When
+every label names the kind of body its reply has (`agreeAll`; by `c15_media_type_spelling` in any
+spelling, with any charset), the transport receives the very replies `HttpDecide` is about: same
+outputs, same session bookkeeping, whatever the labels.  Likewise an event-stream text (legacy SSE)
+that does not itself start with U+FEFF is received as it is, with or without a BOM in front. -/
+theorem c15_label_irrelevant (dec : HttpDecide.Dec μ) (s0 : Option String) (labels : List Label) (posts : List Post)
+    (h : agreeAll labels posts = true) :
+    httpObserve dec s0 (relabelAll labels posts) = httpObserve dec s0 posts
+      ∧ HttpDecide.run dec s0 (relabelAll labels posts) = HttpDecide.run dec s0 posts
+      ∧ ∀ (l : Label) (t : List Char), t.head? ≠ some bom → stripBom (raw l t) = t := by
+  rw [relabelAll_eq labels posts h]
+  exact ⟨rfl, rfl, fun l t ht => stripBom_raw l t ht⟩
+
+/-- **Both Streamable HTTP carriers, replies under any agreeing labels**: the read stream is exactly
+the conversation (`c15_httpJson_transcript` / `c15_httpSse_transcript` below the `CType` abstraction). -/
+theorem c15_labelled_transcripts (dec : HttpDecide.Dec μ) (W : Wire σ μ) (s0 : Option String)
+    (conv : List (Exchange σ)) (hdec : ∀ s ∈ msgsOf conv, HttpDecodes dec W s) :
+    (∀ (choices : List PostChoice) (labels : List Label), Expressible W .httpJson conv → (∀ c ∈ choices, c.status < 400) →
+        agreeAll labels (zipD PostChoice.dflt (jsonPost W) conv choices) = true →
+        httpObserve dec s0 (relabelAll labels (zipD PostChoice.dflt (jsonPost W) conv choices)) = expected W conv) ∧
+    (∀ (choices : List SseBodyChoice) (labels : List Label), (∀ c ∈ choices, c.ok = true) →
+        agreeAll labels (zipD SseBodyChoice.dflt (sseBodyPost W) conv choices) = true →
+        httpObserve dec s0 (relabelAll labels (zipD SseBodyChoice.dflt (sseBodyPost W) conv choices)) = expected W conv) := by
+  refine ⟨fun choices labels hexp hst hl => ?_, fun choices labels hok hl => ?_⟩
+  · rw [relabelAll_eq _ _ hl]; exact httpJson_transcript dec W s0 conv choices hexp hst hdec
+  · rw [relabelAll_eq _ _ hl]; exact httpSse_transcript dec W s0 conv choices hok hdec
+
+/-- the spellings and parameters the check writes (`carrier_gen.MIME_CASE`, `CT_PARAMS`) -/
+def exJsonLabels : List (List Char) := ["application/json", "Application/JSON; charset=ISO-8859-1", "APPLICATION/JSON; charset=utf-16",
+  "application/JSON;charset=us-ascii", "application/json; boundary=x; charset=latin1", "application/json; charset=\"utf-8\"",
+  "application/json; CHARSET=UTF-8", "application/json; charset=bogus"].map String.toList
+def exSseLabels : List (List Char) := ["text/event-stream", "Text/Event-Stream; charset=ISO-8859-1", "TEXT/EVENT-STREAM; charset=utf-16",
+  "text/Event-Stream;charset=us-ascii", "text/event-stream; boundary=x; charset=latin1", "text/event-stream; charset=windows-1252",
+  "text/event-stream; CHARSET=Latin1"].map String.toList
+
+example : exJsonLabels.all (fun h => ctypeOf (some h) = .json) = true := by decide
+example : exSseLabels.all (fun h => ctypeOf (some h) = .sse) = true := by decide
+/-- not vacuous: other values are not taken for either, and a parameter can hijack the choice -/
+example : ctypeOf (some "text/plain; charset=utf-8".toList) = .other ∧ ctypeOf none = .absent
+    ∧ ctypeOf (some "text/event-stream; x=application/json".toList) = .json := by decide
+/-- a reply labelled `Application/JSON; charset=ISO-8859-1` with a BOM in front is the plain reply -/
+example : relabel ⟨some "Application/JSON; charset=ISO-8859-1".toList, true⟩
+      (⟨none⟩, .resp { status := 200, ctype := .json, session := none, body := ⟨"{}".toList, true⟩ })
+    = (⟨none⟩, .resp { status := 200, ctype := .json, session := none, body := ⟨"{}".toList, true⟩ }) := by decide
+
+end label
 
 end Verif.Props.C15
